@@ -101,7 +101,7 @@ def confirm(outdir):
 SNAP = "/tmp/vsnap"
 
 
-def run(ids, isolated=False):
+def run(ids, isolated=False, base=None):
     # the checks run from a snapshot of /verif's HEAD, so that editing /verif meanwhile cannot disturb them
     global SNAP
     repo = "/repo"
@@ -124,7 +124,7 @@ def run(ids, isolated=False):
         txt = open(ct).read().replace('path = "/repo"', 'path = "%s"' % repo)
         open(ct, "w").write(txt)
         os.environ["VERIF_DEV_REPO"] = repo
-    for d in sorted(glob.glob(os.path.join(SEEDED, "*"))):
+    for d in sorted(glob.glob(os.path.join(base or SEEDED, "*"))):
         mid = os.path.basename(d)
         if ids and mid not in ids:
             continue
@@ -147,7 +147,8 @@ def run(ids, isolated=False):
         if m:
             r = json.loads(m[0][7:])
             meta["checks_reporting"] = r["violating"]
-            meta["caught_by_own_property_check"] = meta["breaks_property"] in r["violating"]
+            if "breaks_property" in meta:
+                meta["caught_by_own_property_check"] = meta["breaks_property"] in r["violating"]
             meta["drift_steps"] = r["drift"]
             meta["examples"] = {k: v[:1] for k, v in r["examples"].items()}
             meta["ran"] = "git -C /repo apply patch.diff; python3 check.py matrix --tier quick (every quick job once, debug+release); git -C /repo checkout -- ."
@@ -164,6 +165,9 @@ if __name__ == "__main__":
             confirm(o)
     elif sys.argv[1] == "run":
         run(sys.argv[2:])
+    elif sys.argv[1] == "benign-isolated":
+        run(sys.argv[2:], isolated=True, base=os.path.join(ROOT, "benign"))
+        sh("git -C %s worktree remove --force /tmp/vsnap-iso; git -C /repo worktree remove --force /tmp/vrepo-iso" % ROOT)
     elif sys.argv[1] == "run-isolated":
         run(sys.argv[2:], isolated=True)
         sh("git -C %s worktree remove --force /tmp/vsnap-iso; git -C /repo worktree remove --force /tmp/vrepo-iso" % ROOT)
